@@ -20,7 +20,7 @@
 AnyP::PortCfgPointer HttpPortList;
 
 // a smaller quarantine than ASan's 256 MB default keeps the working set (and page-fault cost) small
-extern "C" const char *__asan_default_options() { return "quarantine_size_mb=16"; }
+extern "C" const char *__asan_default_options() { return "quarantine_size_mb=16:malloc_context_size=2"; }
 
 namespace {
 
